@@ -595,6 +595,11 @@ class Summaries:
             return None
         ex = ctx.ex
         itv = self.deref_arg(ctx, st, ctx.args[0]) if ctx.args else None
+        if ctx.callee["name"] == "next" and isinstance(itv, Agg) and itv.name == "core::iter::zip" and len(itv.fields) == 2 \
+                and isinstance(ctx.args[0], Ptr):
+            z = self.zip_next(ctx, st, itv)
+            if z is not None:
+                return z
         res = ex.abstract_call(st, ctx.fr, ctx.callee, ctx.r, ctx.args, ctx.dest_ty, ctx.span)
         if ctx.callee["name"] == "next" and isinstance(itv, Agg) and (itv.name or "").startswith("core::ops::range::Range") \
                 and len(itv.fields) >= 2 and isinstance(itv.fields[0], IntV) and isinstance(itv.fields[1], IntV) and isinstance(ctx.args[0], Ptr):
@@ -640,6 +645,53 @@ class Summaries:
                 if isinstance(pv, BoolV):
                     st2.facts.assume((ONE - some) + some * pv.p, 1)
         return res
+
+    def zip_next(self, ctx, st, itv):
+        """core::iter::Zip::next, exactly as the library does it: pull from the first iterator; if it is exhausted
+        yield None; pull from the second; if THAT is exhausted yield None - the item already taken from the first
+        is dropped. Each inner pull is a `next` of its own (an event, or a modelled iterator)."""
+        ex = ctx.ex
+        dt = ex.normalize(ctx.dest_ty) if ctx.dest_ty is not None else None
+        try:
+            tup = dt["args"][0]
+            tys = tup["tys"]
+        except (KeyError, TypeError, IndexError):
+            return None
+        if len(tys) != 2:
+            return None
+        p = ctx.args[0]
+        out = []
+
+        def pull(st_, k):
+            f = itv.fields[k]
+            recv = f if isinstance(f, Ptr) else Ptr(p.root, tuple(p.path) + (("f", k, None),), None, getattr(f, "ty", None), True)
+            oty = {"k": "adt", "def": OPTION, "args": [tys[k]]}
+            sty = recv.pty if isinstance(f, Ptr) and recv.pty is not None else getattr(f, "ty", None)
+            r2 = dict(ctx.r)
+            if sty is not None:
+                r2["self_ty"] = sty
+                r2["args"] = [sty]
+            c2 = type(ctx)(ex, ctx.fr, ctx.callee, r2, [recv], oty, ctx.span, ctx.key)
+            return self.s_iter_next(c2, st_)
+
+        for (s1, ra) in pull(st, 0):
+            ca = ex.variant_cond(ra, 1)
+            s_none = s1.fork()
+            if s_none.facts.assume(ONE - ca, 1):
+                out.append((s_none, Agg("adt", OPTION, 0, [], dt)))
+            if not s1.facts.assume(ca, 1):
+                continue
+            xa = ex.expand_sym(ra, 1).fields[0] if isinstance(ra, SymV) else ra.fields[0]
+            for (s2, rb) in pull(s1, 1):
+                cb = ex.variant_cond(rb, 1)
+                s_drop = s2.fork()
+                if s_drop.facts.assume(ONE - cb, 1):
+                    out.append((s_drop, Agg("adt", OPTION, 0, [], dt)))
+                if not s2.facts.assume(cb, 1):
+                    continue
+                xb = ex.expand_sym(rb, 1).fields[0] if isinstance(rb, SymV) else rb.fields[0]
+                out.append((s2, Agg("adt", OPTION, 1, [Agg("tuple", None, None, [xa, xb], tup)], dt)))
+        return out
 
     # ------------------------------------------------------------------ embedded-graphics-core
     EG = "embedded_graphics_core::"
